@@ -218,6 +218,35 @@ def published_matrices(V, tmp, tier="quick") -> int:
             T = rot_matrix(ax[0], ax[1], ax[2], th)
             if not same_up_to_phase(T, np.array(obj.to_matrix_target_only(), dtype=complex)):
                 V.add("published-matrix-differs-from-denotation", {"class": f"nv.{type(obj).__name__}.target_only"}, f"{obj}")
+    # ... of the instruction AS IT IS NOW: an instruction whose matrix was already requested is given another angle in place
+    # (the operands have public setters; the transpilers rewrite instructions in place) or is copied and the copy changed
+    import copy as _copy
+    byclass: Dict[str, List[int]] = {}
+    for i, obj in insts.items():
+        if samples[i - 1]["g"]["imm"]:
+            byclass.setdefault(type(obj).__module__ + type(obj).__name__, []).append(i)
+    rewritten = 0
+    for ids_ in byclass.values():
+        for a_, b_ in zip(ids_, ids_[1:] + ids_[:1]):
+            for how in ("in-place", "copy"):
+                try:
+                    src_ = insts[a_]
+                    np.array(src_.to_matrix(), dtype=complex)                       # requested once with the old angle
+                    tgt_ = src_ if how == "in-place" else _copy.copy(src_)
+                    old_ = (tgt_.angle_num, tgt_.angle_denom)
+                    tgt_.angle_num, tgt_.angle_denom = insts[b_].angle_num, insts[b_].angle_denom
+                    M = np.array(tgt_.to_matrix(), dtype=complex)
+                    if how == "in-place":
+                        tgt_.angle_num, tgt_.angle_denom = old_
+                except Exception as ex:
+                    V.add("published-matrix-raises", {"class": f"{type(insts[a_]).__module__.split('.')[-1]}.{type(insts[a_]).__name__}", "after": "rewrite"}, str(ex))
+                    continue
+                rewritten += 1
+                if M.shape != Us[b_].shape or not same_up_to_phase(Us[b_], M):
+                    V.add("published-matrix-is-that-of-an-earlier-angle",
+                          {"class": f"{type(insts[a_]).__module__.split('.')[-1]}.{type(insts[a_]).__name__}", "how": how},
+                          f"{insts[a_]} was given the angle of {insts[b_]} ({how}) after its matrix had been requested: to_matrix() is not the operator of the new angle")
+    published_matrices.rewritten = rewritten
     # the matrix of an instruction is a function of the instruction alone: the same comparison with the matrices
     # requested in other orders, each order in a process of its own (nothing computed earlier is around)
     import multiprocessing as mp
@@ -276,22 +305,28 @@ def run(prop: str, tier: str) -> int:
             raise C.MachineryError(f"{inconclusive} artefacts could not be decided by the normal form (non-commuting residual rotations)")
         nmat = published_matrices(V, tmp, tier)
         # binding self-test: a mutated decomposition must be rejected
-        probe = json.loads(json.dumps(next(r for r in good if r["gate"] == "cnot" and r["ids"] == [1, 2])))
-        probe["id"] = 1
-        for g in probe["tgt"]:
-            if g["mn"] == "rot_z":
-                g["imm"][0] = (g["imm"][0] + 16) % 32
-                break
-        r3 = C.run_tlc_sharded("NvEquiv", [probe], tmp, shards=1, tag="self")
-        if not r3.verdicts:
-            raise C.MachineryError("binding self-test: mutated carbon-carbon CNOT expansion accepted")
+        src_probe = next((r for r in good if r["gate"] == "cnot" and r["ids"] == [1, 2] and r["id"] in res.ok_ids), None) or \
+            next((r for r in good if r["id"] in res.ok_ids and any(g["mn"] == "rot_z" for g in r["tgt"])), None)
+        if src_probe is None:
+            if not V.has_new():
+                raise C.MachineryError("binding self-test: no accepted expansion with a rot_z to mutate")
+        else:
+            probe = json.loads(json.dumps(src_probe))
+            probe["id"] = 1
+            for g in probe["tgt"]:
+                if g["mn"] == "rot_z":
+                    g["imm"][0] = (g["imm"][0] + 16) % 32
+                    break
+            r3 = C.run_tlc_sharded("NvEquiv", [probe], tmp, shards=1, tag="self")
+            if not r3.verdicts:
+                raise C.MachineryError("binding self-test: mutated expansion accepted")
         cov = {
             "programs": len(rows), "disagreements_checked": len(bad),
             "states": res.distinct, "transitions": res.generated,
             "evaluations": len(rows), "distinct_nontrivial": len({json.dumps([r["gate"], r["ids"], r["src"][0]["imm"], r["hw"]]) for r in good}),
             "rule": "artefact = (vanilla gate, placement over electron/carbons, (n,d), hardware flag) with the REAL transpiler's expansion; every artefact is non-trivial (a gate to preserve); distinct by value",
             "samples": [{k: rows[i][k] for k in ("gate", "ids", "src", "tgt", "hw")} for i in (0, 25, len(rows) - 1)],
-            "published_matrices_compared": nmat, "matrix_evaluation_orders": 1 + published_matrices.orders,
+            "published_matrices_compared": nmat, "matrix_evaluation_orders": 1 + published_matrices.orders, "matrices_after_in_place_rewrite": published_matrices.rewritten,
             "selftest": "carbon-carbon CNOT expansion with one rot_z numerator changed was rejected",
             "exhaustive": False, "checker_cmd": res.cmd,
         }
